@@ -4,10 +4,6 @@ From XV Require Import Base.XDefs C16.Model16 C16.Spec16 C16.Proofs16a C16.Proof
 From Coq Require Import Arith ZArith ZifyBool ZifyN ZifyNat Lia.
 Local Open Scope nat_scope.
 
-(** operations covered by the round-trip theorem: typed primitives, writeSize/Int64/UInt64, raw blocks and XMLCh
-    strings (null or not) without buffer length *)
-Definition basic (o : op) : Prop := match o with OPrim _ _ | ORaw _ | OStr _ => True | _ => False end.
-
 Section Main.
 Variable bs : nat.
 Hypothesis Hbs8 : 8 <= bs.
@@ -19,9 +15,9 @@ Proof. destruct k; cbn [pk_size]; lia. Qed.
 Lemma noData_prim : (noData < 256 ^ N.of_nat 8)%N.
 Proof. vm_compute. reflexivity. Qed.
 
-Lemma step_op : forall o, op_ok o -> basic o -> step_ok bs (w_op bs o) (r_op false bs (rq_of o)) o.
+Lemma step_op : forall o, op_ok o -> step_ok bs (w_op bs o) (r_op false bs (rq_of o)) o.
 Proof.
-  intros o Hok Hb w Hw. destruct o as [k v|data|s|s|s]; try (exfalso; exact Hb).
+  intros o Hok w Hw. destruct o as [k v|data|s|s8|s].
   - (* primitive *)
     cbn [op_ok] in Hok. rewrite pk_bound_pow in Hok.
     destruct (step_prim bs Hbs (pk_size k) (pk_al k) v (pk_size_bounds k) Hok w Hw) as [w' [e [E1 [E2 [E3 E4]]]]].
@@ -64,17 +60,78 @@ Proof.
       intros r T Hr Hps HR. destruct (E4 r T Hr Hps HR) as [r1 [F1 [F2 [F3 F4]]]].
       exists r1. cbn [rq_of r_op]. unfold r_str. rewrite F1. cbn [bind]. rewrite N.eqb_refl. cbn [bind].
       split; [reflexivity|]. split; [exact F2|]. split; [exact F3|exact F4].
+  - (* XMLCh string with buffer length *)
+    destruct s8 as [[bl cs]|].
+    + cbn [op_ok] in Hok. destruct Hok as [Hcs [Hlen Hbl]]. unfold len_fits in Hlen.
+      assert (Hblv : (bl < 256 ^ N.of_nat 8)%N) by (pose proof noData_prim; lia).
+      assert (Hlv : (N.of_nat (length cs) < 256 ^ N.of_nat 8)%N) by (pose proof noData_prim; unfold noData in *; lia).
+      destruct (step_prim bs Hbs 8 true bl (conj (Nat.lt_0_succ 7) Hbs8) Hblv w Hw) as [w0 [e0 [D1 [D2 [D3 D4]]]]].
+      injection D1 as D1.
+      destruct (step_prim bs Hbs 8 true (N.of_nat (length cs)) (conj (Nat.lt_0_succ 7) Hbs8) Hlv w0 D2) as [w1 [e1 [E1 [E2 [E3 E4]]]]].
+      injection E1 as E1.
+      destruct (step_raw bs Hbs (chars_bytes cs) w1 E2) as [w2 [G1 [G2 [G3 G4]]]].
+      exists w2, (e0 ++ e1 ++ chars_bytes cs). split; [|split; [exact G2|split]].
+      * cbn [w_op w_str]. rewrite D1, E1. exact G1.
+      * rewrite G3, E3, D3. now rewrite <- !app_assoc.
+      * intros r T Hr Hps HR. rewrite <- !app_assoc in HR.
+        destruct (D4 r (e1 ++ chars_bytes cs ++ T) Hr Hps HR) as [r0 [C1 [C2 [C3 C4]]]].
+        destruct (E4 r0 (chars_bytes cs ++ T) C3 C4 C2) as [r1 [F1 [F2 [F3 F4]]]].
+        destruct (G4 r1 T F3 F4 F2) as [r2 [K1' [K2' [K3' K4']]]].
+        exists r2. cbn [rq_of r_op]. unfold r_str. rewrite C1. cbn [bind].
+        assert (Hnd : (bl =? noData)%N = false) by (apply N.eqb_neq; lia).
+        rewrite Hnd. rewrite F1. cbn [bind].
+        assert (Hlo : len_ok (2 * N.of_nat (length cs)) r1 = true).
+        { unfold len_ok. apply N.leb_le. unfold R in F2.
+          assert (length (r_cur r1) + length (r_inp r1) = length (chars_bytes cs) + length T)
+            by (rewrite <- !app_length, F2; reflexivity).
+          rewrite chars_bytes_length in H. lia. }
+        rewrite Hlo.
+        replace (N.to_nat (2 * N.of_nat (length cs))) with (length (chars_bytes cs)) by (rewrite chars_bytes_length; lia).
+        rewrite K1'. cbn [bind]. rewrite (bytes_chars_bytes cs Hcs).
+        split; [reflexivity|]. split; [exact K2'|]. split; [exact K3'|exact K4'].
+    + destruct (step_prim bs Hbs 8 true noData (conj (Nat.lt_0_succ 7) Hbs8) noData_prim w Hw) as [w1 [e1 [E1 [E2 [E3 E4]]]]].
+      exists w1, e1. split; [exact E1|]. split; [exact E2|]. split; [exact E3|].
+      intros r T Hr Hps HR. destruct (E4 r T Hr Hps HR) as [r1 [F1 [F2 [F3 F4]]]].
+      exists r1. cbn [rq_of r_op]. unfold r_str. rewrite F1. cbn [bind]. rewrite N.eqb_refl. cbn [bind].
+      split; [reflexivity|]. split; [exact F2|]. split; [exact F3|exact F4].
+  - (* XMLByte string *)
+    destruct s as [cs|].
+    + cbn [op_ok] in Hok. destruct Hok as [Hcs Hlen]. unfold len_fits in Hlen.
+      assert (Hlv : (N.of_nat (length cs) < 256 ^ N.of_nat 8)%N) by (pose proof noData_prim; unfold noData in *; lia).
+      destruct (step_prim bs Hbs 8 true (N.of_nat (length cs)) (conj (Nat.lt_0_succ 7) Hbs8) Hlv w Hw) as [w1 [e1 [E1 [E2 [E3 E4]]]]].
+      injection E1 as E1.
+      destruct (step_raw bs Hbs cs w1 E2) as [w2 [G1 [G2 [G3 G4]]]].
+      exists w2, (e1 ++ cs). split; [|split; [exact G2|split]].
+      * cbn [w_op w_str8]. rewrite E1. exact G1.
+      * rewrite G3, E3. now rewrite app_assoc.
+      * intros r T Hr Hps HR. rewrite <- app_assoc in HR.
+        destruct (E4 r (cs ++ T) Hr Hps HR) as [r1 [F1 [F2 [F3 F4]]]].
+        destruct (G4 r1 T F3 F4 F2) as [r2 [K1' [K2' [K3' K4']]]].
+        exists r2. cbn [rq_of r_op]. unfold r_str8. rewrite F1. cbn [bind].
+        assert (Hnd : (N.of_nat (length cs) =? noData)%N = false) by (apply N.eqb_neq; unfold noData in *; lia).
+        rewrite Hnd.
+        assert (Hlo : len_ok (N.of_nat (length cs)) r1 = true).
+        { unfold len_ok. apply N.leb_le. unfold R in F2.
+          assert (length (r_cur r1) + length (r_inp r1) = length cs + length T)
+            by (rewrite <- !app_length, F2; reflexivity). lia. }
+        rewrite Hlo. rewrite Nat2N.id. rewrite K1'. cbn [bind].
+        split; [reflexivity|]. split; [exact K2'|]. split; [exact K3'|exact K4'].
+    + destruct (step_prim bs Hbs 8 true noData (conj (Nat.lt_0_succ 7) Hbs8) noData_prim w Hw) as [w1 [e1 [E1 [E2 [E3 E4]]]]].
+      exists w1, e1. split; [exact E1|]. split; [exact E2|]. split; [exact E3|].
+      intros r T Hr Hps HR. destruct (E4 r T Hr Hps HR) as [r1 [F1 [F2 [F3 F4]]]].
+      exists r1. cbn [rq_of r_op]. unfold r_str8. rewrite F1. cbn [bind]. rewrite N.eqb_refl.
+      split; [reflexivity|]. split; [exact F2|]. split; [exact F3|exact F4].
 Qed.
 
-Lemma ops_ok : forall ops, Forall op_ok ops -> Forall basic ops ->
+Lemma ops_ok : forall ops, Forall op_ok ops ->
   step_ok bs (w_ops bs ops) (r_ops false bs (map rq_of ops)) ops.
 Proof.
-  induction ops as [|o ops IH]; intros Hok Hb w Hw.
+  induction ops as [|o ops IH]; intros Hok w Hw.
   - exists w, []. split; [reflexivity|]. split; [exact Hw|]. split; [now rewrite app_nil_r|].
     intros r T Hr Hps HR. exists r. split; [reflexivity|]. split; [exact HR|]. split; [exact Hr|exact Hps].
-  - inversion Hok as [|? ? Ho Hoks]; subst. inversion Hb as [|? ? Hbo Hbs']; subst.
-    destruct (step_op o Ho Hbo w Hw) as [w1 [e1 [E1 [E2 [E3 E4]]]]].
-    destruct (IH Hoks Hbs' w1 E2) as [w2 [e2 [G1 [G2 [G3 G4]]]]].
+  - inversion Hok as [|? ? Ho Hoks]; subst.
+    destruct (step_op o Ho w Hw) as [w1 [e1 [E1 [E2 [E3 E4]]]]].
+    destruct (IH Hoks w1 E2) as [w2 [e2 [G1 [G2 [G3 G4]]]]].
     exists w2, (e1 ++ e2). split; [cbn [w_ops]; rewrite E1; exact G1|]. split; [exact G2|].
     split; [rewrite G3, E3; now rewrite app_assoc|].
     intros r T Hr Hps HR. rewrite <- app_assoc in HR.
@@ -84,13 +141,13 @@ Proof.
     split; [reflexivity|]. split; [exact K2'|]. split; [exact K3'|exact K4'].
 Qed.
 
-Lemma engine_roundtrip : forall ops, Forall op_ok ops -> Forall basic ops ->
+Lemma engine_roundtrip : forall ops, Forall op_ok ops ->
   exists stream r', w_all bs ops = Ok stream /\ r_all false bs (map rq_of ops) stream = Ok (ops, r') /\
                     R r' = zeros (length (R r')) /\ length (R r') <= bs.
 Proof.
-  intros ops Hok Hb.
+  intros ops Hok.
   assert (Hw0 : inv_w bs w_init) by (split; cbn; [lia|exists 0; reflexivity]).
-  destruct (ops_ok ops Hok Hb w_init Hw0) as [w' [e [E1 [[Hbuf [k Hk]] [E3 E4]]]]].
+  destruct (ops_ok ops Hok w_init Hw0) as [w' [e [E1 [[Hbuf [k Hk]] [E3 E4]]]]].
   unfold L in E3. cbn [w_init w_out w_buf app] in E3.
   set (pad := zeros (bs - length (w_buf w'))).
   assert (Hst : w_final bs w' = e ++ pad) by (unfold w_final; cbn [w_flush w_out]; rewrite app_assoc, E3; reflexivity).
@@ -120,15 +177,14 @@ Qed.
 
 (** a pool written with stamp [stamp] is refused by a loader of any other level, whatever follows *)
 Lemma level_mismatch_stored : forall level stamp locked body qs, (stamp < 4294967296)%N -> stamp <> level ->
-  Forall op_ok body -> Forall basic body ->
+  Forall op_ok body ->
   exists stream, pool_store bs stamp locked body = Ok stream /\ pool_load false bs level qs stream = Err E_LevelMismatch.
 Proof.
-  intros level stamp locked body qs Hs Hne Hok Hb.
+  intros level stamp locked body qs Hs Hne Hok.
   set (lk := if locked then 1%N else 0%N).
   assert (Hok' : Forall op_ok (OPrim K4 stamp :: OPrim K1 lk :: body)).
   { constructor; [exact Hs|]. constructor; [|exact Hok]. cbn [op_ok pk_bound]. unfold lk. destruct locked; lia. }
-  assert (Hb' : Forall basic (OPrim K4 stamp :: OPrim K1 lk :: body)) by (repeat constructor; exact Hb).
-  destruct (engine_roundtrip _ Hok' Hb') as [stream [r' [E1 [E2 _]]]].
+  destruct (engine_roundtrip _ Hok') as [stream [r' [E1 [E2 _]]]].
   exists stream. split; [exact E1|].
   unfold r_all in E2. destruct (r_init bs stream) as [r0|] eqn:E0; [|discriminate].
   cbn [bind map r_ops rq_of r_op pk_size pk_al] in E2.
